@@ -6,6 +6,7 @@
 import IsoDT.Model.Calendar
 import IsoDT.Model.TimePoint
 import IsoDT.Model.Duration
+import IsoDT.Model.LocalTZ
 
 open IsoDT IsoDT.Model
 open IsoDT.Spec (Date TZ TP)
@@ -196,6 +197,30 @@ def tpOps : List String := ["add", "sub", "addmonths", "tick", "tz", "hash", "ha
 
 def dispatch (toks : List String) : String :=
   match toks with
+  | ["localtz", tz, alt, dl, dst] =>
+    match ints? [tz, alt, dl, dst] with
+    | some [tz, alt, dl, dst] => let r := localTZ tz alt (dl != 0) dst; s!"{r.1} {r.2}"
+    | _ => "bad-op"
+  | ["localtzfmt", tz, alt, dl, dst] =>
+    match ints? [tz, alt, dl, dst] with
+    | some [tz, alt, dl, dst] =>
+      let r := localTZ tz alt (dl != 0) dst
+      s!"{formatLocalTZ 0 r} {formatLocalTZ 1 r} {formatLocalTZ 2 r}"
+    | _ => "bad-op"
+  | ["fromunix", mode, n, "utc"] =>
+    match Mode.ofName? mode, n.toInt? with
+    | some m, some n => showOTP (fromUnix m n none)
+    | _, _ => "bad-op"
+  | ["fromunix", mode, n, h, mi] =>
+    match Mode.ofName? mode, ints? [n, h, mi] with
+    | some m, some [n, h, mi] => showOTP (fromUnix m n (some ⟨h, mi⟩))
+    | _, _ => "bad-op"
+  | "since" :: mode :: rest =>
+    match Mode.ofName? mode, parseTP rest with
+    | some m, some (p, _) => match secondsSinceUnixEpoch m p with
+      | some n => toString n
+      | none => "err"
+    | _, _ => "bad-op"
   | ["mktz", mode, h, mi] =>
     match Mode.ofName? mode, h.toInt?, mi.toInt? with
     | some m, some h, some mi => match mkTZ m h mi with
